@@ -43,6 +43,31 @@ def gen(chk):
         kind = "req" if rng.random() < 0.65 else "rsp"
         pre = cfg.req_prefix() if kind == "req" else cfg.rsp_prefix()
         cases.append(pre + " " + G.frag_arg(data, cuts))
+    # well-formed messages (mostly chunked, with extensions and trailers) with one byte damaged somewhere - weighted
+    # towards the end: last chunk and trailers - and more bytes following the damage
+    for _ in range(n // 2):
+        cfg = G.rand_cfg(rng)
+        kind = "req" if rng.random() < 0.5 else "rsp"
+        m = None
+        while m is None:
+            m = G.gen_request(rng, cfg, body_kind=rng.choice(["chunked", "chunked", None])) if kind == "req" else G.gen_response(rng, cfg)
+        data = bytearray(m.bytes())
+        if len(data) < 4:
+            continue
+        lo = 0 if rng.random() < 0.4 else max(0, len(data) - 40)
+        for _ in range(rng.choice([1, 1, 2])):
+            pos = rng.randrange(lo, len(data))
+            data[pos] = rng.choice([0, 32, 64, 127, 128, 255, 13, 10, 58, 59, rng.randrange(256)])
+        data = bytes(data) + rng.choice([b"", b"x", b"\r\n", b"GET / HTTP/1.1\r\n\r\n", bytes(rng.randrange(256) for _ in range(rng.randint(1, 12)))])
+        how = rng.random()
+        if how < 0.4 or len(data) < 2:
+            cuts = ()
+        elif how < 0.5 and len(data) < 200:
+            cuts = tuple(range(1, len(data)))
+        else:
+            cuts = tuple(sorted(rng.sample(range(1, len(data)), rng.randint(1, min(6, len(data) - 1)))))
+        pre = cfg.req_prefix() if kind == "req" else cfg.rsp_prefix()
+        cases.append(pre + " " + G.frag_arg(data, cuts))
     return cases
 
 
